@@ -67,7 +67,7 @@ Theorem geom_explicit_correct Tm G : (1 <= G)%nat ->
 Proof.
   intros HG. destruct G as [|g]. lia.
   unfold geom_explicit, msum, accumulate_repeat.
-  replace (S g - 1)%nat with g by lia.
+  change (Nat.pred (S g)) with g.
   rewrite toF_madd, toF_mid, fold_accum, toF_mzero_n, fadd_zero_l.
   unfold fgeom. rewrite fsum_shift. change (fpow n (toF Tm) 0) with fid.
   rewrite (fsum_ext n g _ (fun i => fpow n (toF Tm) (S i))). reflexivity.
